@@ -517,6 +517,12 @@ def check_pairs(case):
                         r = tree_update(t, u) if ignore is None else tree_update(t, u, ignore=_ig(ignore))
                     elif op == 'Dict+':
                         r = t + u
+                        # the same sum started from an EMPTY Dict: (Dict() + t) + u, every partial sum being a Dict that merges like one
+                        r0_ = (Dict() + t) + u
+                        out.call(2)
+                        if type(r0_) is not Dict or plain(r0_) != expect:
+                            out.viol('merge-differs', '(Dict() + t) + u with t=%s u=%s = %s %s, expected the Dict %s' % (tshow, show(mu, 200), type(r0_).__name__, show(plain(r0_)), show(expect)),
+                                     op='Dict+', cls=c.rstrip('+'), from_empty=True)
                     else:
                         r = items_to_tree(tree_items(u), tree=t, ignore=_ig(ignore))
                     out.call()
@@ -678,6 +684,63 @@ def check_edge(case):
         out.cls('%s:%s' % (case['f'], klass(flags)))
         if flags:
             out.nontrivial('%s|%d' % (case['f'], ui))
+    return out
+
+
+# ------------------------------------------------------------------------------------------------ suite: ignore_lists
+# leaves that are themselves lists, and ignore lists naming such leaves -- including an ignore list whose ONLY element is a list ([[]], [[1, 2]])
+
+IGL = [None, [[]], [[1, 2]], [None, []], [[], [1, 2]], [[]] * 2, [[None]]]
+LLEAF = [[], [1, 2], None, [None], 1]
+
+
+def gen_ignore_lists():
+    for ti in range(len(LLEAF)):
+        for ui in range(len(LLEAF)):
+            for depth in (1, 2):
+                for gi in range(len(IGL)):
+                    yield {'t': ti, 'u': ui, 'depth': depth, 'ig': gi}
+
+
+def check_ignore_lists(case):
+    from pyg_base import tree_update, items_to_tree, tree_items, tree_setitem, Dict
+    import copy as _copy
+    out = Out()
+    tl, ul, ig0 = LLEAF[case['t']], LLEAF[case['u']], IGL[case['ig']]
+    path = ['a'] if case['depth'] == 1 else ['a', 'b']
+
+    def mk(leaf, root=dict):
+        leaf = _copy.deepcopy(leaf)
+        return root(a=leaf) if case['depth'] == 1 else root(a=root(b=leaf), k=0)
+    ignored = ig0 is not None and any(type(x) is type(ul) and x == ul for x in ig0)
+    want = mk(tl) if ignored else mk(ul)
+    if case['depth'] == 2:
+        want['k'] = 0
+    label = 't=%r u=%r ignore=%r' % (mk(tl), mk(ul), ig0)
+    sig = dict(ig=repr(ig0), ignored=ignored)
+    for op in ('tree_update', 'items_to_tree', 'tree_setitem', 'Dict-tree_update'):
+        out.sub()
+        t, u, ig = mk(tl, Dict if op.startswith('Dict') else dict), mk(ul), _copy.deepcopy(ig0)
+        try:
+            if op.endswith('tree_update'):
+                r = tree_update(t, u) if ig is None else tree_update(t, u, ignore=ig)
+            elif op == 'items_to_tree':
+                r = items_to_tree(tree_items(u), tree=t) if ig is None else items_to_tree(tree_items(u), tree=t, ignore=ig)
+            else:
+                r = _copy.deepcopy(t)
+                tree_setitem(r, list(path), _copy.deepcopy(ul)) if ig is None else tree_setitem(r, list(path), _copy.deepcopy(ul), ignore=ig)
+            out.call()
+        except Exception as e:
+            out.viol('raised', '%s(%s) raised %s: %s' % (op, label, type(e).__name__, e), op=op, exc=type(e).__name__, **sig)
+            continue
+        if not isinstance(r, dict) or plain(r) != want:
+            out.viol('merge-differs', '%s(%s) = %s, expected %s (%s)' % (op, label, show(plain(r)) if isinstance(r, dict) else r, show(want),
+                                                                        'the leaf of u is on the ignore list: t keeps its own' if ignored else 'the leaf of u is not ignored: it overrides'), op=op, **sig)
+        if ig != ig0 or plain(u) != mk(ul) or (op != 'tree_setitem' and plain(t) != mk(tl)):
+            out.viol('operand-mutated', '%s(%s) changed an operand: t=%r u=%r ignore=%r' % (op, label, plain(t), plain(u), ig), op=op, operand='any', depth=case['depth'])
+    out.cls('ignore-list:%s' % ('none' if ig0 is None else 'ignored' if ignored else 'not-ignored'))
+    if ignored:
+        out.nontrivial()
     return out
 
 
@@ -1014,6 +1077,9 @@ def suites(tier, seed):
                    '{a,b} holding at least one empty branch x U2 in 3 layouts: merge model, t and u untouched; non-trivial = per (tree, layout) resp. overlapping pair'
                    % (2 if quick else 3, '' if quick else '; t depth <= 3', 2 if quick else 3),
               bounds=dict(max_leaves=2 if quick else 3, max_depth=3, layouts=3)),
+        Suite('ignore_lists', gen_ignore_lists, check_ignore_lists,
+              rule='leaves of t and u from %r at depth 1 / 2 x ignore in %r (incl. ignore lists whose only element is a list) through tree_update (dict and Dict roots), '
+                   'items_to_tree and tree_setitem; an ignored leaf of u never overrides' % (LLEAF, IGL), bounds=dict(leaves=len(LLEAF), ignores=len(IGL))),
         Suite('update_chains', lambda: gen_chains(tier), check_chain,
               rule='all chains over the %d shapes with <= 2 leaves (keys ab, depth <= 3; leaves t:1 u:2 v:x w:3): r1 = tree_update(t,u); r2 = tree_update(r1,v) and '
                    'tree_update(v,r1) %s; after every call every kept operand and earlier result (t, u, v, w, r1, r2) is compared with its identity+content '
